@@ -347,6 +347,136 @@ let ch_c19 namesf footf firstf chain kind _ahead =
                 (String.length (string_of_bytes head) > 40 && String.sub (string_of_bytes head) 0 40 = "application/vnd.openxmlformats-officedocu") in
   if special then (match els with _ :: p :: _ when p = "application/zip|.zip" -> () | _ -> propfail "C19" (Printf.sprintf "verdict %s does not have application/zip as its parent: %s" head_full chain))
 
+(* ---- reader (C05) ---- *)
+let parse_script (t : ostr) : step list =
+  if t = "-" then [] else
+  List.map (fun p ->
+    if p.[0] = 'f' then Fail (nat_of_int (int_of_string (String.sub p 1 (String.length p - 1))))
+    else Chunk (nat_of_int (int_of_string (String.sub p 1 (String.length p - 2))), p.[String.length p - 1] = 'e')) (String.split_on_char ',' t)
+let rec script_no_fail = function [] -> true | Fail _ :: _ -> false | _ :: l -> script_no_fail l
+(* bytes a failure-free prefix of the script delivers before the first Fail, given unlimited room *)
+(* rd <x> <limit> <script> <spy header|NONE> <spy limit> <delivered> <err> <chain> <detect chain> <kind> *)
+let ch_rd xh lim sc spyh spyl deliv err chain dchain kind =
+  let x = bytes_of_hex xh in
+  let l = n_of_int (int_of_string lim) in
+  let script = parse_script sc in
+  let rd0 = { rem = x; script = script } in
+  let ((mh, me), r') = detect_reader_read l rd0 in
+  let m_hdr = match mh with Some h -> hex_of_bytes h | None -> "NONE" in
+  let m_err = match me with RNil -> "nil" | REOF -> "EOF" | RUnexpectedEOF -> "UEOF" | RErr e -> "E" ^ string_of_int (int_of_nat e) in
+  let m_cons = int_of_nat (reader_consumed rd0 r') in
+  if m_hdr <> spyh then mismatch "reader" (Printf.sprintf "header passed to match: model=%s obs=%s input=%s limit=%s script=%s" m_hdr spyh xh lim sc);
+  if m_err <> err then mismatch "reader" (Printf.sprintf "error: model=%s obs=%s input=%s limit=%s script=%s" m_err err xh lim sc);
+  if string_of_int m_cons <> deliv then mismatch "reader" (Printf.sprintf "bytes consumed: model=%d obs=%s input=%s limit=%s script=%s" m_cons deliv xh lim sc);
+  (* the property, judged on the implementation *)
+  let li = int_of_string lim in
+  let dv = int_of_string deliv in
+  let desc = Printf.sprintf "input=%s limit=%s script=%s kind=%s" xh lim sc kind in
+  if li > 0 && dv > li then propfail "C05" (Printf.sprintf "DetectReader consumed %d bytes, more than the limit: %s" dv desc);
+  if script_no_fail script then begin
+    if err <> "nil" then propfail "C05" (Printf.sprintf "conforming reader, yet an error is reported (%s): %s" err desc);
+    if chain <> dchain then propfail "C05" (Printf.sprintf "DetectReader reports %s but Detect on the same bytes reports %s: %s" chain dchain desc);
+    if spyh <> hex_of_bytes (hdr l x) then propfail "C05" (Printf.sprintf "the header handed to the tree walk (%s) is not the first `limit` bytes of the input: %s" spyh desc);
+    if spyl <> lim then propfail "C05" (Printf.sprintf "the limit handed to the tree walk (%s) differs: %s" spyl desc);
+    if li = 0 && dv <> List.length x then propfail "C05" (Printf.sprintf "limit 0 but only %d bytes consumed: %s" dv desc)
+  end else begin
+    (* bytes delivered before the failure *)
+    let hl = if li > 0 && li < List.length x then li else (if li > 0 then List.length x + 1 else max_int) in
+    if dv < hl && err <> "nil" || (dv < hl && not (script_no_fail script)) then begin
+      (* the failure hit before the header was complete (model says whether the Fail step was reached) *)
+      match me with
+      | RErr e ->
+        if err <> "E" ^ string_of_int (int_of_nat e) || chain <> "application/octet-stream|" then
+          propfail "C05" (Printf.sprintf "read error before the header was complete must yield application/octet-stream and that error; got %s / %s: %s" chain err desc)
+      | _ -> ()
+    end
+  end
+
+(* ---- Extend histories (C14) ---- *)
+type xnode = { x_mime : ostr; x_ext : ostr; x_aliases : ostr list; x_parent : int }
+let base_nodes : (int, xnode) Hashtbl.t = Hashtbl.create 256
+let () = List.iter (fun nd -> Hashtbl.replace base_nodes (int_of_nat nd.n_id)
+    { x_mime = string_of_bytes nd.n_mime; x_ext = string_of_bytes nd.n_ext; x_aliases = List.map string_of_bytes nd.n_aliases;
+      x_parent = (match nd.n_parent with Some p -> int_of_nat p | None -> -1) }) nodes
+let dec_hex_str h = if h = "-" then "" else string_of_bytes (bytes_of_hex h)
+let hist_cache : (ostr * (tree * (int, xnode) Hashtbl.t * int list) list) option ref = ref None
+(* the model states after 1, 2, ... ops of a history *)
+let model_history (hist : ostr) =
+  match !hist_cache with
+  | Some (h, st) when h = hist -> st
+  | _ ->
+    let tbl = Hashtbl.copy base_nodes in
+    let tree = ref tree0 in
+    let next = ref (Hashtbl.length base_nodes) in
+    let ext_ids = ref [] in
+    let states = ref [] in
+    List.iter (fun op ->
+      match String.split_on_char '/' op with
+      | [ph; mh; eh; ah; _pred] ->
+        let parent = dec_hex_str ph in
+        let names id = let nd = Hashtbl.find tbl (int_of_nat id) in List.map bytes_of_string (nd.x_aliases @ [nd.x_mime]) in
+        let pid = if parent = "" then 0 else (match lookup names (bytes_of_string parent) !tree with Some i -> int_of_nat i | None -> -1) in
+        let id = !next in
+        incr next;
+        let al = let a = dec_hex_str ah in if a = "" then [] else String.split_on_char ',' a in
+        Hashtbl.replace tbl id { x_mime = dec_hex_str mh; x_ext = dec_hex_str eh; x_aliases = al; x_parent = pid };
+        tree := insert_first (nat_of_int pid) (nat_of_int id) !tree;
+        ext_ids := id :: !ext_ids;
+        states := (!tree, Hashtbl.copy tbl, !ext_ids) :: !states
+      | _ -> ()) (String.split_on_char '+' hist);
+    let st = List.rev !states in
+    hist_cache := Some (hist, st);
+    st
+let canon_model tree tbl =
+  let rec go (T (id, cs)) = let nd = Hashtbl.find tbl (int_of_nat id) in
+    Printf.sprintf "%s|%s|%d" nd.x_mime nd.x_ext (List.length cs) :: List.concat_map go cs in
+  String.concat ";" (go tree)
+let canon_dump (d : ostr) =
+  String.concat ";" (List.map (fun part -> match String.split_on_char '|' part with
+    | [m; e; _p; cs] -> Printf.sprintf "%s|%s|%d" (dec_hex_str m) (dec_hex_str e) (if cs = "" then 0 else List.length (String.split_on_char '.' cs))
+    | _ -> "?") (String.split_on_char ';' d))
+let parents_ok (d : ostr) =
+  (* every child's recorded parent index is the node that lists it *)
+  let parts = Array.of_list (String.split_on_char ';' d) in
+  let ok = ref true in
+  Array.iteri (fun i part -> match String.split_on_char '|' part with
+    | [_; _; _; cs] when cs <> "" ->
+      List.iter (fun c -> let ci = int_of_string c in
+        (match String.split_on_char '|' parts.(ci) with [_; _; p; _] -> if int_of_string p <> i then ok := false | _ -> ok := false)) (String.split_on_char '.' cs)
+    | _ -> ()) parts;
+  !ok
+let ch_ext hist k dump =
+  let st = model_history hist in
+  let (tree, tbl, _) = List.nth st (int_of_string k - 1) in
+  let m = canon_model tree tbl and o = canon_dump dump in
+  if m <> o then propfail "C14" (Printf.sprintf "tree after Extend #%s differs from `the extension sits immediately in front of the siblings that existed`: model=%s impl=%s history=%s" k m o hist);
+  if not (parents_ok dump) then propfail "C14" (Printf.sprintf "parent pointers disagree with children lists after Extend #%s: history=%s" k hist)
+let ch_extp hist hex lim vec chain before =
+  let st = model_history hist in
+  let (tree, tbl, ext_ids) = List.nth st (List.length st - 1) in
+  let ids = List.map int_of_nat (flatten tree) in
+  let verdict = Hashtbl.create 256 in
+  List.iteri (fun i id -> if i < String.length vec then Hashtbl.replace verdict id vec.[i]) ids;
+  let acc id = (try Hashtbl.find verdict (int_of_nat id) = '1' with Not_found -> false) in
+  let path = List.rev (walk acc tree) in
+  let m = String.concat ";" (List.map (fun id -> let nd = Hashtbl.find tbl (int_of_nat id) in nd.x_mime ^ "|" ^ nd.x_ext) path) in
+  if m <> chain then propfail "C14" (Printf.sprintf "after the Extend calls Detect is not the first-match walk over the enlarged tree: expected %s got %s input=%s limit=%s history=%s" m chain hex lim hist);
+  let any_ext = List.exists (fun id -> (try Hashtbl.find verdict id = '1' with Not_found -> false)) ext_ids in
+  if (not any_ext) && chain <> before then
+    propfail "C14" (Printf.sprintf "input rejected by every extension detector is classified differently after the Extend calls: before=%s after=%s input=%s limit=%s history=%s" before chain hex lim hist)
+let ch_extl hist nameh goth =
+  let st = model_history hist in
+  let (tree, tbl, _) = List.nth st (List.length st - 1) in
+  let name = dec_hex_str nameh in
+  let names id = let nd = Hashtbl.find tbl (int_of_nat id) in List.map bytes_of_string (nd.x_aliases @ [nd.x_mime]) in
+  let expected = match lookup names (bytes_of_string name) tree with
+    | Some id -> let nd = Hashtbl.find tbl (int_of_nat id) in
+      let par = if nd.x_parent < 0 then "-" else (Hashtbl.find tbl nd.x_parent).x_mime in
+      nd.x_mime ^ "|" ^ nd.x_ext ^ "|" ^ par ^ "|true"
+    | None -> "NIL" in
+  let got = dec_hex_str goth in
+  if got <> expected then propfail "C14" (Printf.sprintf "Lookup(%S) after the Extend calls: expected %s got %s history=%s" name expected got hist)
+
 (* c10 <hex hdr> <limit> <mime|ext of the result> <kind> *)
 let json_family_heads = ["application/json|.json"; "application/geo+json|.geojson"; "application/json|.har"; "model/gltf+json|.gltf"]
 let ch_c10 hex lim head kind =
@@ -372,6 +502,11 @@ let () =
        | ["c17"; hex; classes] -> ch_c17 hex classes
        | ["c10"; hex; lim; head; kind] -> ch_c10 hex lim head kind
        | ["c18"; hex; vec; chain; kind] -> ch_c18 hex vec chain kind
+       | ["ext"; h; k; d] -> ch_ext h k d
+       | ["extp"; h; x; l; v; ch; bf] -> ch_extp h x l v ch bf
+       | ["extl"; h; n; g] -> ch_extl h n g
+       | ["extdone"; _] -> ()
+       | ["rd"; x; l; sc; sh; sl; dv; er; ch; dch; k] -> ch_rd x l sc sh sl dv er ch dch k
        | ["c19"; n; f; fb; chain; kind; ah] -> ch_c19 n f fb chain kind ah
        | ["c12h"; d; t; o; ty; cs; l; k] -> ch_c12h d t o ty cs l k
        | ["c12x"; d; o; ty; cs; l; k] -> ch_c12x d o ty cs l k
